@@ -1191,3 +1191,65 @@ func (c *Ctx) ruleNormalisers() {
 		r.Undecided("C08-NORMALISERS", "annotation", "catalog.Annotation not found", "")
 	}
 }
+
+// ruleEOFAsEOL: an included file may end without a line break, and what follows in the including file continues the
+// same line structure. In every state in which a line break is simply the end of the line (the step function emits
+// nothing for LF and goes to the state that expects a keyword), the end of the file must not be an error either:
+// otherwise a piece that is legal with a trailing line break is rejected without one.
+func (c *Ctx) ruleEOFAsEOL(m *scanfsm.Machine, a *scanfsm.Analysis) {
+	r := c.R
+	r.Rule("C09-EOF-AS-EOL", "in every reachable scanner state where LF only ends the line (no event, next state = the keyword-expecting state) the end of the file is accepted as well: a file that is INCLUDEd may end without a line break at any such point", 3)
+	// the states in which a new line of directives starts: the initial state and every state the keyword trie starts
+	// from (a state that emits KeywordBegin on a letter)
+	lineStart := map[string]bool{m.InitStep: true}
+	for _, st := range m.Steps {
+		for b := 'A'; b <= 'Z'; b++ {
+			for _, o := range m.Trans[st][byte(b)] {
+				for _, e := range o.Effs {
+					if e.K == scanfsm.EFound && e.Ev == "KeywordBegin" {
+						lineStart[st] = true
+					}
+				}
+			}
+		}
+	}
+	n := 0
+	for _, st := range m.Steps {
+		if a != nil && !a.StatesSeen[st] {
+			continue
+		}
+		plainEOL := false
+		for _, o := range m.Trans[st]['\n'] {
+			if o.Term == scanfsm.TErr {
+				continue
+			}
+			events := 0
+			for _, e := range o.Effs {
+				if e.K == scanfsm.EFound {
+					events++
+				}
+			}
+			if events == 0 && lineStart[o.FinalStep()] && o.Weight() == 1 {
+				plainEOL = true
+			}
+		}
+		if !plainEOL {
+			continue
+		}
+		n++
+		okEOF := false
+		for _, o := range m.Trans[st][0] {
+			if o.Term != scanfsm.TErr {
+				okEOF = true
+			}
+		}
+		if okEOF {
+			r.Ok("C09-EOF-AS-EOL", "state "+st, "LF ends the line and the end of the file is accepted too", c.P.Pos(m.Pos[st]))
+		} else {
+			r.Bad("C09-EOF-AS-EOL", "state "+st, "LF simply ends the line here but the end of the file is an error: an included file that ends at this point without a line break is rejected although the same text with a line break is accepted", c.P.Pos(m.Pos[st]))
+		}
+	}
+	if n == 0 {
+		r.Undecided("C09-EOF-AS-EOL", "states", "no state found in which LF simply ends the line", "")
+	}
+}
